@@ -111,9 +111,19 @@ pub fn run(ctx: &Ctx) -> i32 {
             check_case(ctx, st, &tcs, Settings::with(REP | if i % 4 == 0 { CAP | VERB } else { 0 }, m, l));
         });
     }
+    // literal text resembling class tokens next to members of that class
+    {
+        let look = gen::token_lookalike_cases();
+        let extra = [0, REP, REP | ESC, REP | VERB, REP | CAP, CI];
+        par_for(&ctx.run, look.len() * extra.len(), |i, st| {
+            let (tcs, f) = &look[i % look.len()];
+            st.count("token_lookalike_cases");
+            check_case(ctx, st, tcs, Settings::new(f | extra[i / look.len()]));
+        });
+    }
     // random repeat-rich families x other settings
     let n = if ctx.thorough { 300_000 } else { 12_000 };
-    let names = ["ab", "abc", "meta", "graph", "astral", "classes", "case", "ws", "clusters"];
+    let names = ["ab", "abc", "meta", "graph", "astral", "classes", "case", "ws", "clusters", "tokens"];
     let alphabets: Vec<(String, Vec<String>)> = names.iter().map(|a| (a.to_string(), gen::alphabet(a))).collect();
     par_for(&ctx.run, n, |i, st| {
         let mut rng = Rng::new(seed, 0x50_0000 + i as u64);
